@@ -688,6 +688,15 @@ def run(pid, tier, replay=None):
         for rec in recs:
             chk.case(json.dumps(rec.abstract), nontrivial=True)
         judge(chk, traces, recs, cfg_model, focus)
+        # trees that cross target readjustments (period 3): sibling blocks on a readjustment height take their targets from their own
+        # timestamps, so competing tips of equal height differ in target -- the head is still the first-seen tip of greatest height
+        sk.apply_cfg(cfg_hdr)
+        traces, recs, muts = random_batch(n, steps, cfg_hdr, keys, rng, tid, hdr=True, p_mut=0.05)
+        tid += len(traces)
+        for rec in recs:
+            chk.case(json.dumps(rec.abstract), nontrivial=True)
+        judge(chk, traces, recs, cfg_hdr, focus)
+        sk.apply_cfg(cfg_model)
         # the same clauses on the node's delivery path: random trees delivered block by block to a real node (real store), where
         # arrivals include repeated deliveries of blocks on the active chain, on side branches, of tips and of blocks that have children
         from checks import node as nodechk
@@ -790,6 +799,47 @@ def run(pid, tier, replay=None):
             if st["found"] < 20:
                 return machinery_failure(pid, "assembly stage (%s) found only %d blocks" % (nm, st["found"]))
         chk.extra["assembly_stage"] = astats
+        # ---- the same rules on the node's delivery path, with the node's clock behind, at and ahead of the blocks' timestamps: chains of blocks
+        #      each dated ahead of the clock (a head up to MaxFuture ahead, then its child further ahead still) -- "not too far in the future" is
+        #      relative to the clock, whatever the head's own date
+        from checks import node as nodechk
+        from harness import node_drv
+        sk.apply_cfg(cfg_hdr)
+        sba, hba = nodechk.probe_switches(cfg_hdr, keys)
+        nconsts = nodechk.ledger_consts(cfg_hdr, {pid}, sba, hba)
+        nconsts["Focus"] = {pid}
+        ntraces, nlabels = [], []
+        mf = cfg_hdr.max_future
+        for i in range(12 if quick else 120):
+            w3 = sk.World(cfg_hdr, keys, tag=b"c5d%d" % i)
+            g3 = w3.make_genesis(ts=5000)
+            tid += 1
+            run_ = node_drv.NodeRun(w3, g3, peers=nodechk.PEERS, tid=tid, clock0=5000)
+            try:
+                nrec = nodechk.NodeRec(run_, rng)
+                rt = RandomTree(w3, nrec, rng, nkeys=3, p_mut=0.15, hdr=True)
+                lab = []
+                clock = 5000
+                for k in range(14 if quick else 28):
+                    # the clock only moves forward; the next block is dated relative to its parent, so slack = clock - ts may be far negative
+                    parent = rng.choice(rt.stored) if rng.random() < 0.3 else rt.stored[-1]
+                    clock += rng.choice([0, 0, 1, 2])
+                    ts_next_min = rt.ts[parent] + 1
+                    if rng.random() < 0.6:
+                        # date the block a chosen distance ahead of the clock (RandomTree adds 1..3 to the parent's date: hold the clock back instead)
+                        ahead = rng.choice([mf - 2, mf - 1, mf, mf, mf + 1, mf + 2, mf + 15, 2 * mf, 2 * mf + 1])
+                        slack = -ahead
+                        res, m = rt.step(now_slack=slack, parent=parent)
+                    else:
+                        res, m = rt.step(parent=parent)
+                    lab.append(["block", res, m])
+                if run_.events:
+                    ntraces.append(run_.trace())
+                    nlabels.append(lab)
+                chk.case(json.dumps(["node", lab]), nontrivial=True)
+            finally:
+                run_.close()
+        nodechk.judge(chk, ntraces, nlabels, nconsts)
         # ---- the real constants: real period boundaries, targets recomputed by TLC with BigNat (TraceRetarget)
         from checks import retarget
         retarget.stage(chk, quick, rng, pid)
@@ -878,6 +928,16 @@ def run(pid, tier, replay=None):
         handover.stage_adversarial(chk, quick, rng, pid, cfg_i, keys, nodechk.build_universe, mk,
                                    {"C01": "spend_not_authorised_by_the_owner", "C02": "reward_above_subsidy_plus_fees", "C05": "timestamp_not_later_than_the_parent_s"}[pid])
         sk.restore_cfg()
+    if pid in ("C01", "C02", "C03"):
+        # ---- the ledger state a restarted node validates against: a crash at every SQL statement of a flush of the real store, then the real
+        #      start-up path (StoreCrash.tla; TraceStore op "crash")
+        from checks import store as storechk
+        cfg_s = sk.Cfg(**storechk.MODEL_CFG)
+        sk.apply_cfg(cfg_s)
+        rc_ = storechk.crash_stage(chk, quick, rng, pid, cfg_s, sk.Keys(3))
+        sk.restore_cfg()
+        if rc_:
+            return rc_
     if chk.traces_validated == 0:
         return machinery_failure(pid, "no trace was validated")
     return chk.finish()
